@@ -149,6 +149,9 @@ def standin_env_random(tier, seed):
                 got = js('hit.ucg')
                 exp = dict([('n', 1)] + [('v%d' % i, env[nm]) for i, nm in enumerate(names)])
                 n += max(1, len(names))
+                if not isinstance(got, dict):
+                    return viol(bound, n, '%s mode: the program that reads every set variable does not build: %s' % (mode, ' '.join(([x for x in out.split('Building ') if x.startswith('hit.ucg')] or [out])[0][-400:].split())), source=hit, env=env, expected=exp,
+                                observed=out[-600:], how=how)
                 if got != exp:
                     bad = [(names[i], sels[i]) for i in range(len(names)) if not isinstance(got, dict) or got.get('v%d' % i) != env[names[i]]]
                     return viol(bound, n, '%s mode: %s evaluates to %r, the variable holds %r' % (
